@@ -1,3 +1,7 @@
 import LouModel
 import LouProofs.Lemmas.PosMap
 import LouProofs.C07
+import LouProofs.Lemmas.Hyph
+import LouProofs.Lemmas.HyphWalk
+import LouProofs.Lemmas.HyphCompile
+import LouProofs.C17
